@@ -254,6 +254,14 @@ def job_fn(job):
             # a template derived without in_place (as run() derives one internally to attach an extrinsic input) is still the
             # circuit of populations
             ct = ct.update_template(name='popmodel_derived')
+        if job.get('derive_then_edit'):
+            # C14: a template derived WITHOUT in_place gets other population values (update_var on the derived one, and
+            # a non-mutating run of it); the BASE template is compiled afterwards and must still be the original model
+            base = ct
+            d = base.update_template(name='popmodel_copy')
+            fp = FP(400)
+            d.update_var(node_vars={'a/li/tau': np.array([float(fp()) for _ in range(pm.pops['a'].n)]), 'b/o1/g': float(fp())})
+            ct = base
         if job.get('extra_edge'):
             # two ordinary nodes and an ordinary edge next to the populations (both forms get them)
             from pyrates import CircuitTemplate
@@ -391,6 +399,8 @@ def run(tier='quick', seed=0, only=None, verbose=False):
                              shared_pop=True))
             jobs.append(dict(key=f"pop:{kind}:{seed}:{i}|population|derived-template", kind=kind, seed=seed * 100 + i,
                              build='population', vectorize=True, spec=None, derive=True))
+            jobs.append(dict(key=f"pop:{kind}:{seed}:{i}|population|derive-then-edit-copy", kind=kind, seed=seed * 100 + i,
+                             build='population', vectorize=True, spec=None, derive_then_edit=True))
             jobs.append(dict(key=f"pop:{kind}:{seed}:{i}|population|node_values+ordinary-edge", kind=kind,
                              seed=seed * 100 + i, build='population', vectorize=True, spec=None, node_values=True,
                              extra_edge=True))
